@@ -35,6 +35,10 @@ def generate(rng, tier):
                     seen.add((tuple(s_), str(t_)))
                     out.append([s_, t_, l_])
             lab = rng.choice([None, None, [], rng.sample(labels + ["zz"], rng.randrange(1, len(labels) + 1))])
+            if lab and rng.random() < 0.3:
+                # a label named twice in the request is still one label
+                lab = lab + [rng.choice(lab)]
+                rng.shuffle(lab)
             cases.append({"k": "ann", "regime": regime, "recs": out, "labels": lab})
     for regime in ("K0", "K4"):
         for nbig in ([300, 640, 1100] if tier == "thorough" else [270 + 50 * len(regime)]):
